@@ -304,7 +304,9 @@ def check_c14(tier, seed, log=print):
     R = random.Random(seed)
     srcs = ['', 'a', 'ab 12', 'ab  cd é', 'é', 'x1 y2  z3', 'aé b', '12ab!é?', 'hello world 42', '中a',
             # characters that share all but the last byte with one a token matches: the attempt dies inside the character
-            'aèb', '丮x', '😐 y', 'é😐中', '😀😐', 'a 丮 😐']
+            'aèb', '丮x', '😐 y', 'é😐中', '😀😐', 'a 丮 😐',
+            # ... after an ASCII prefix of the same token (the error item starts with an ASCII byte and dies inside a character)
+            '#è x', 'ab #è', '=😐', '1 =😐 #é', '#é#è']
     n_hist = 150 if tier == 'quick' else 2000
     reqs = []
     for k in range(n_hist):
